@@ -2457,6 +2457,8 @@ func translate(repo string, p *pkgFiles, outPath string) {
 		{fn: "HandlePutUser", recv: "Server", as: "putUserTail", trace: true, anchor: "user.Name = r.PathValue(\"id\")"},
 		{fn: "HandleIDPInitiated", recv: "Server", trace: true},
 		{fn: "HandleDeleteUser", recv: "Server", trace: true},
+		{fn: "HandleDeleteShortcut", recv: "Server", trace: true},
+		{fn: "HandlePutShortcut", recv: "Server", as: "putShortcutTail", trace: true, anchor: "shortcut.Name = r.PathValue(\"id\")"},
 		{fn: "HandleDeleteSession", recv: "Server", trace: true},
 		{fn: "GetServiceProvider", recv: "Server"},
 		{fn: "initializeServices", recv: "Server", mutRecv: true},
